@@ -1,4 +1,5 @@
 import Rio.Model.Pack
+import Rio.Proofs.UnpackNoPanic
 /-!
 # C12 — Filters change exactly the attribute they name
 
@@ -161,5 +162,100 @@ theorem C12_stack_complete (user dflt : PackFilter) (hu : user.initialized = tru
 /-- non-vacuity (tests): a setuid file under `setid=reject` is rejected; under `setid=ignore` the bits go. -/
 example : packRejects { losslessPack with setid := ffReject } { defaultDirMeta ⟨[0x61], -1⟩ with kind := .file, perms := 0o4755 } := by decide
 example : (specPack { losslessPack with setid := ffIgnore } { defaultDirMeta ⟨[0x61], -1⟩ with kind := .file, perms := 0o4755 }).perms = 0o755 := by decide
+
+
+/-! ### the unpack side -/
+
+/-- a reject rule of the unpack filter names this entry -/
+def unpackRejects (ff : UnpackFilter) (m : Meta) : Prop :=
+  (ff.setid = ffReject ∧ (if ff.sticky ≠ ffKeep then clearBits m.perms permSticky else m.perms) &&& (permSetuid ||| permSetgid) ≠ 0)
+  ∨ (ff.dev = ffReject ∧ isDevKind m.kind = true)
+
+instance (ff : UnpackFilter) (m : Meta) : Decidable (unpackRejects ff m) := by unfold unpackRejects; infer_instance
+
+def unpackDrops (ff : UnpackFilter) (m : Meta) : Bool :=
+  ff.dev ≠ ffReject && ff.dev ≠ ffKeep && isDevKind m.kind
+
+/-- attribute by attribute: uid / gid become the unpacking process's own ids (`mine`), a given number, or stay; mtime is
+    set or stays; sticky and setuid+setgid bits are cleared or stay; a device node is dropped under `dev=ignore`. -/
+def specUnpack (myUid myGid : Nat) (ff : UnpackFilter) (m : Meta) : Meta :=
+  { m with
+    uid := if ff.uid = ffContext then myUid else if ff.uid ≠ ffKeep then toU32 ff.uid else m.uid
+    gid := if ff.gid = ffContext then myGid else if ff.gid ≠ ffKeep then toU32 ff.gid else m.gid
+    mtime := if ff.mtime ≠ ffKeep then ⟨ff.mtime, 0⟩ else m.mtime
+    perms :=
+      let p := if ff.sticky ≠ ffKeep then clearBits m.perms permSticky else m.perms
+      if ff.setid ≠ ffReject ∧ ff.setid ≠ ffKeep then clearBits p (permSetuid ||| permSetgid) else p
+    kind := if ff.dev ≠ ffReject ∧ ff.dev ≠ ffKeep ∧ isDevKind m.kind = true then .invalid else m.kind }
+
+theorem ite_or_same {α : Type} (A B : Prop) [Decidable A] [Decidable B] [Decidable (A ∨ B)] (x y : α) :
+    (if A then x else if B then x else y) = (if A ∨ B then x else y) := by
+  by_cases ha : A <;> by_cases hb : B <;> simp [ha, hb]
+
+/-- **The unpack filter is the documented rule**: `mtime=now` is a usage error; otherwise it fails with
+    `filter-rejection` exactly when a reject rule names the entry, and otherwise yields the entry with exactly the
+    named attributes changed — `mine` meaning the ids of the unpacking process. -/
+theorem C12_unpack_entry (myUid myGid : Nat) (ff : UnpackFilter) (m : Meta) :
+    applyUnpackFilter myUid myGid ff m =
+      if ff.mtime = ffContext then .err .usage
+      else if unpackRejects ff m then .err .filterRejection else .ok (specUnpack myUid myGid ff m) := by
+  rw [applyUnpackFilter_eq]
+  -- the rules act on disjoint fields: compose them
+  have hperms : (fSticky ff (fMtime ff (fGid myGid ff (fUid myUid ff m)))).perms =
+      (if ff.sticky ≠ ffKeep then clearBits m.perms permSticky else m.perms) := by
+    have p1 : (fUid myUid ff m).perms = m.perms := by unfold fUid; split <;> (try split) <;> rfl
+    have p2 : ∀ x, (fGid myGid ff x).perms = x.perms := by intro x; unfold fGid; split <;> (try split) <;> rfl
+    have p3 : ∀ x, (fMtime ff x).perms = x.perms := by intro x; unfold fMtime; split <;> rfl
+    unfold fSticky
+    split <;> simp [p1, p2, p3]
+  have hkind : (fSetid ff (fSticky ff (fMtime ff (fGid myGid ff (fUid myUid ff m))))).kind = m.kind := by
+    rw [(fSetid_nk _ _).2, (fSticky_nk _ _).2, (fMtime_nk _ _).2, (fGid_nk _ _ _).2, (fUid_nk _ _ _).2]
+  have hk : ffKeep ≠ ffContext := by decide
+  have hspec : fDev ff (fSetid ff (fSticky ff (fMtime ff (fGid myGid ff (fUid myUid ff m))))) = specUnpack myUid myGid ff m := by
+    -- field by field
+    have u1 : (fUid myUid ff m) = { m with uid := if ff.uid = ffContext then myUid else if ff.uid ≠ ffKeep then toU32 ff.uid else m.uid } := by
+      unfold fUid; split <;> (try split) <;> simp_all
+    have g1 : ∀ x : Meta, fGid myGid ff x = { x with gid := if ff.gid = ffContext then myGid else if ff.gid ≠ ffKeep then toU32 ff.gid else x.gid } := by
+      intro x; unfold fGid; split <;> (try split) <;> simp_all
+    have m1 : ∀ x : Meta, fMtime ff x = { x with mtime := if ff.mtime ≠ ffKeep then ⟨ff.mtime, 0⟩ else x.mtime } := by
+      intro x; unfold fMtime; split <;> simp_all
+    have s1 : ∀ x : Meta, fSticky ff x = { x with perms := if ff.sticky ≠ ffKeep then clearBits x.perms permSticky else x.perms } := by
+      intro x; unfold fSticky; split <;> simp_all
+    have i1 : ∀ x : Meta, fSetid ff x = { x with perms := if ff.setid ≠ ffReject ∧ ff.setid ≠ ffKeep then clearBits x.perms (permSetuid ||| permSetgid) else x.perms } := by
+      intro x; unfold fSetid; split <;> simp_all
+    have d1 : ∀ x : Meta, fDev ff x = { x with kind := if ff.dev ≠ ffReject ∧ ff.dev ≠ ffKeep ∧ isDevKind x.kind = true then .invalid else x.kind } := by
+      intro x; unfold fDev; split <;> simp_all
+    rw [d1, i1, s1, m1, g1, u1]
+    rfl
+  rw [hperms, hkind, hspec]
+  unfold unpackRejects
+  split
+  · rfl
+  · exact ite_or_same _ _ _ _
+
+/-- `uid=mine` / `gid=mine`: the delivered entry carries the ids of the unpacking process — uid from the uid, gid from
+    the gid -/
+theorem C12_unpack_mine (myUid myGid : Nat) (ff : UnpackFilter) (m m' : Meta)
+    (h : applyUnpackFilter myUid myGid ff m = .ok m') :
+    (ff.uid = ffContext → m'.uid = myUid) ∧ (ff.gid = ffContext → m'.gid = myGid) := by
+  rw [C12_unpack_entry] at h
+  split at h
+  · cases h
+  · split at h
+    · cases h
+    · injection h with h; subst h
+      exact ⟨fun e => by simp [specUnpack, e], fun e => by simp [specUnpack, e]⟩
+
+/-- nothing but the named attributes changes on the unpack side either -/
+theorem C12_unpack_only_named (myUid myGid : Nat) (ff : UnpackFilter) (m m' : Meta)
+    (h : applyUnpackFilter myUid myGid ff m = .ok m') :
+    m'.name = m.name ∧ m'.size = m.size ∧ m'.linkname = m.linkname ∧ m'.devmajor = m.devmajor ∧
+    m'.devminor = m.devminor ∧ m'.xattrs = m.xattrs := by
+  rw [C12_unpack_entry] at h
+  split at h
+  · cases h
+  · split at h
+    · cases h
+    · injection h with h; subst h; exact ⟨rfl, rfl, rfl, rfl, rfl, rfl⟩
 
 end Rio
